@@ -182,6 +182,55 @@ def case_coq(case):
     return "%s %s %s" % (bl(case["pre"]), k, bl(case["post"]))
 
 
+class NoText(Exception):
+    pass
+
+
+ATOM_CH = {"a": "a", "b": "b", "then": "t", "else": "e", "true": "T", "false": "F", "[]": "n"}
+VAR_CH = {"X": "x", "Y": "y", "Z": "z", "O1": "p", "O2": "q"}
+
+
+def ts(t):
+    """compact text of a term (C54/Model.v, decode)"""
+    k = t[0]
+    if k == "var":
+        if t[1] in VAR_CH: return VAR_CH[t[1]]
+        if isinstance(t[1], int) and 0 <= t[1] <= 9: return str(t[1])
+    elif k == "atom" and t[1] in ATOM_CH: return ATOM_CH[t[1]]
+    elif k == "cmp" and t[1] == "f" and len(t[2]) == 1: return "f" + ts(t[2][0])
+    elif k == "cmp" and t[1] == "." and len(t[2]) == 2: return "c" + ts(t[2][0]) + ts(t[2][1])
+    raise NoText()
+
+
+def cond_s(c):
+    k = c[0]
+    if k == "eq": return "=" + ts(c[1]) + ts(c[2])
+    if k == "dif": return "#" + ts(c[1]) + ts(c[2])
+    return ("&" if k == "and" else "|") + cond_s(c[1]) + cond_s(c[2])
+
+
+def case_s(case, answers):
+    """the whole case as one Coq string literal, or None when something has no compact text"""
+    try:
+        kind = case["kind"]
+        pre = "".join(VAR_CH[v] + ts(t) for v, t in case["pre"])
+        post = "".join(VAR_CH[v] + ts(t) for v, t in case["post"])
+        if kind in ("if", "disj", "plain"): k = {"if": "I", "disj": "D", "plain": "P"}[kind] + cond_s(case["c"])
+        else: k = {"tfilter": "L", "tpartition": "R", "memberd_t": "M", "tmember": "E"}[kind] + ts(case["x"]) + "".join(ts(e) for e in case["l"])
+        ans = ";".join("".join(ts(t) for t in b) + "," + "".join(ts(x) + ts(y) for x, y in d) for b, d in answers)
+        return '"%s/%s/%s/%s"' % (pre, k, post, ans)
+    except NoText:
+        return None
+
+
+def judge_expr(fn, case, answers=None):
+    """fn in check_case | chk_model | chk_ground | model_ground_ok"""
+    s = case_s(case, answers if answers is not None else [])
+    if s is not None: return "%s_s %s" % (fn, s)
+    if fn == "model_ground_ok": return "model_ground_ok %s" % case_coq(case)
+    return "%s %s %s" % (fn, case_coq(case), answers_coq(answers))
+
+
 def binding_patterns(rng, vs, n):
     """the all-free pattern and n sampled patterns: each variable free, bound before, or bound after the call"""
     pats = [((), ())]
@@ -202,8 +251,8 @@ def binding_patterns(rng, vs, n):
 
 def gen_cases(ctx):
     rng = ctx.rng
-    n_cond = ctx.scale(260, 3000)
-    n_list = ctx.scale(220, 2500)
+    n_cond = ctx.scale(400, 4000)
+    n_list = ctx.scale(320, 3000)
     cases, skipped = [], 0
     seen = set()
 
@@ -344,18 +393,26 @@ def run(ctx):
             same = canon_key(g["if"]["answers"]) == canon_key(g["disj"]["answers"])
             dist["if_/3 vs explicit reified disjunction: " + ("identical answers" if same else "answers differ textually")] += 1
 
-    exprs = ["check_case %s %s" % (case_coq(c), answers_coq(c["answers"])) for c in judged]
+    exprs = [judge_expr("check_case", c, c["answers"]) for c in judged]
     # cross-validation of the model against its own direct evaluation on a sample
     sample = [c for i, c in enumerate(judged) if i % 7 == 0]
-    mexprs = ["model_ground_ok %s" % case_coq(c) for c in sample]
+    mexprs = [judge_expr("model_ground_ok", c) for c in sample]
+    # the compact text form against the constructor form on a sample (the decoder of C54/Model.v is on the comparison path)
+    xsample = [c for i, c in enumerate(judged) if i % 9 == 4 and case_s(c, c["answers"]) is not None]
+    xexprs = ["Bool.eqb (check_case_s %s) (check_case %s %s) && match decode %s with Some _ => true | None => false end"
+              % (case_s(c, c["answers"]), case_coq(c), answers_coq(c["answers"]), case_s(c, c["answers"])) for c in xsample]
     t1 = time.time()
-    allbad, errors = core.coq_eval_bools(ctx.prop, IMPORTS, exprs + mexprs, chunk=250, tag="judge")
+    allbad, errors = core.coq_eval_bools(ctx.prop, IMPORTS, exprs + mexprs + xexprs, chunk=400, tag="judge")
     t_judge = time.time() - t1
     for sh, e in errors:
         tie_breaks.append({"kind": "coq-eval", "what": "a shard of model evaluations was rejected by coqc", "detail": str(e)[-1500:]})
     bad = [i for i in allbad if i < len(exprs)]
     for i in allbad:
-        if i >= len(exprs):
+        if i >= len(exprs) + len(mexprs):
+            c = xsample[i - len(exprs) - len(mexprs)]
+            tie_breaks.append({"kind": "coq-eval", "what": "the compact text form of a case is not decoded to the case (decoder of C54/Model.v or encoder of checks/C54.py)",
+                               "detail": xexprs[i - len(exprs) - len(mexprs)][:1500]})
+        elif i >= len(exprs):
             c = sample[i - len(exprs)]
             tie_breaks.append({"kind": "coq-eval", "what": "the model's answers disagree with the model's own direct evaluation on ground instances",
                                "detail": "model_ground_ok %s" % case_coq(c)})
@@ -363,7 +420,7 @@ def run(ctx):
     dexprs = []
     for i in bad:
         c = judged[i]
-        dexprs += ["chk_model %s %s" % (case_coq(c), answers_coq(c["answers"])), "chk_ground %s %s" % (case_coq(c), answers_coq(c["answers"]))]
+        dexprs += [judge_expr("chk_model", c, c["answers"]), judge_expr("chk_ground", c, c["answers"])]
     dbad, derr = core.coq_eval_bools(ctx.prop, IMPORTS, dexprs, chunk=250, tag="diag") if dexprs else ([], [])
     db = set(dbad)
     shown = 0
@@ -390,5 +447,5 @@ def run(ctx):
                      "tfilter/tpartition/memberd_t/tmember on lists of <= 4 elements likewise; every case is one query whose full answer sequence is judged in Coq "
                      "(answers vs model, ground instances vs direct evaluation); non-trivial = distinct queries with at least two answers or with a variable bound "
                      "before/after the call"),
-            "notes": ["implementation %.1fs, model judgement %.1fs (%d expressions)" % (t_impl, t_judge, len(exprs) + len(mexprs))],
+            "notes": ["implementation %.1fs, model judgement %.1fs (%d expressions, %d of them cross-checks of the compact text form)" % (t_impl, t_judge, len(exprs) + len(mexprs) + len(xexprs), len(xexprs))],
             "samples": samples, "distribution": dict(dist), "failures": failures, "tie_breaks": tie_breaks}
